@@ -48,11 +48,14 @@ Rec(rq) == [rq |-> rq,
             st |-> StateSeq(db'),
             lk |-> IF \E x \in 1..MaxTx : txs'[x].mode = "rw" THEN "w"
                    ELSE IF \E x \in 1..MaxTx : txs'[x].mode = "ro" THEN "r" ELSE "free",
-            ro |-> readOnly']
+            ro |-> readOnly', repl |-> repl']
 Step(rq) == Do(rq) /\ h' = Append(h, Rec(rq))
 
-ScriptIds == CASE Role = "replica" -> {14, 15} [] Role = "primary" -> {16} [] OTHER -> (1..13) \cup {17, 18, 19}
-GInit == Init /\ h = <<>> /\ phase = "run" /\ sid \in (IF Flavour = "script" THEN ScriptIds ELSE {0})
+\* Flavour "script16": the C16 script of the standalone role only (the standalone scripts of "script" are C19's)
+IsScript == Flavour \in {"script", "script16"}
+ScriptIds == CASE Role = "replica" -> {14, 15} [] Role = "primary" -> {16, 20}
+               [] OTHER -> IF Flavour = "script16" THEN {21} ELSE (1..13) \cup {17, 18, 19}
+GInit == Init /\ h = <<>> /\ phase = "run" /\ sid \in (IF IsScript THEN ScriptIds ELSE {0})
 
 -----------------------------------------------------------------------------
 (* random requests *)
@@ -120,9 +123,12 @@ RandomStep ==
           \/ \E k \in RGoodKey, v \in RGoodVal : Step([Q("apply_merge") EXCEPT !.k = k, !.v = v])
           \/ \E k \in RGoodKey : Step([Q("apply_del") EXCEPT !.k = k])
           \/ \E ops \in RBatch(TRUE) : Step([Q("apply_batch") EXCEPT !.ops = ops])
-          \/ \E r \in {R(12)} : r <= 2 /\ Step([Q("setro") EXCEPT !.ro = (r = 1)])
+          \* the mode switch (more often on a node that does not start read-only) and Manager.Stop
+          \/ \E r \in {R(12)} : r <= (IF Role = "replica" THEN 2 ELSE 6) /\ Step([Q("setro") EXCEPT !.ro = (r % 2 = 1)])
+          \/ R(10) = 1 /\ Step(Q("stoprepl"))
+          \/ Step(Q("nodeinfo"))
 
-GRandom == Flavour # "script" /\ phase = "run" /\ Len(h) < GenLen /\ RandomStep /\ UNCHANGED <<phase, sid>>
+GRandom == ~IsScript /\ phase = "run" /\ Len(h) < GenLen /\ RandomStep /\ UNCHANGED <<phase, sid>>
 
 -----------------------------------------------------------------------------
 (* scripts: the scenarios named by C19 / C17 *)
@@ -210,7 +216,11 @@ Scripts == <<
      [Q("begin") EXCEPT !.via = "emb", !.ro = FALSE], [Tx("txput", 2, K1, "v1") EXCEPT !.via = "emb"], [Tx("txdel", 2, K3, "") EXCEPT !.via = "emb"],
      [Tx("txget", 2, K3, "") EXCEPT !.via = "emb"], [Tx("commit", 2, <<>>, "") EXCEPT !.via = "emb"], [Q("scan") EXCEPT !.via = "emb"],
      Q("nodeinfo"), [Q("setro") EXCEPT !.ro = FALSE], Q("nodeinfo"), [Q("put") EXCEPT !.k = K1, !.v = "v2"],
-     [Q("setro") EXCEPT !.ro = TRUE], [Q("put") EXCEPT !.k = K1, !.v = "v3"], Q("nodeinfo"), [Q("get") EXCEPT !.k = K1] >>,
+     [Q("setro") EXCEPT !.ro = TRUE], [Q("put") EXCEPT !.k = K1, !.v = "v3"], Q("nodeinfo"), [Q("get") EXCEPT !.k = K1],
+     \* Manager.Stop (what Server.Shutdown does first): the node is still a replica of P and still refuses writes - and says so
+     Q("stoprepl"), Q("nodeinfo"), [Q("put") EXCEPT !.k = K2, !.v = "v1"], [Q("del") EXCEPT !.via = "emb", !.k = K1],
+     [Q("apply_put") EXCEPT !.k = K2, !.v = "v2"], [Q("get") EXCEPT !.k = K2], [Q("setro") EXCEPT !.ro = FALSE], Q("nodeinfo"),
+     [Q("put") EXCEPT !.k = K2, !.v = "v3"], [Q("setro") EXCEPT !.ro = TRUE], Q("nodeinfo") >>,
   \* 16 (primary): the node says so and takes writes
   << Q("nodeinfo"), [Q("put") EXCEPT !.k = K1, !.v = "v1"], [Q("get") EXCEPT !.k = K1], Q("nodeinfo") >>,
   \* 17: scans at byte boundaries (binary concretisation: prefixes and bounds ending in 0xFF / 0x00 / 0xFE, a key that is a
@@ -232,7 +242,16 @@ Scripts == <<
   EdgeFill,
   \* 19 (+ edge sweep): the same inside a read-write transaction with buffered puts and deletes
   EdgeFill \o << [Q("begin") EXCEPT !.ro = FALSE], Tx("txput", 1, <<2, 11, 1>>, "v2"), Tx("txdel", 1, <<2, 11>>, ""),
-                 Tx("txput", 1, <<11, 11>>, "v3"), Tx("txdel", 1, <<1>>, "") >>
+                 Tx("txput", 1, <<11, 11>>, "v3"), Tx("txdel", 1, <<1>>, "") >>,
+  \* 20 (primary, in-process): a primary switched to read-only at run time (demotion) and back; Manager.Stop in between
+  << Q("nodeinfo"), [Q("put") EXCEPT !.k = K1, !.v = "v1"], [Q("setro") EXCEPT !.ro = TRUE], Q("nodeinfo"),
+     [Q("put") EXCEPT !.k = K1, !.v = "v2"], [Q("del") EXCEPT !.via = "emb", !.k = K1], [Q("apply_put") EXCEPT !.k = K2, !.v = "v2"],
+     [Q("get") EXCEPT !.k = K2], Q("stoprepl"), Q("nodeinfo"), B(<<BOp("put", K3, "v3")>>, 0), [Q("setro") EXCEPT !.ro = FALSE],
+     Q("nodeinfo"), [Q("put") EXCEPT !.k = K3, !.v = "v3"], [Q("get") EXCEPT !.k = K3] >>,
+  \* 21 (standalone, in-process): the same on a node without a replication manager
+  << Q("nodeinfo"), [Q("put") EXCEPT !.k = K1, !.v = "v1"], [Q("setro") EXCEPT !.ro = TRUE], Q("nodeinfo"),
+     [Q("put") EXCEPT !.k = K1, !.v = "v2"], [Q("del") EXCEPT !.via = "emb", !.k = K1], [Q("apply_del") EXCEPT !.k = K1],
+     [Q("get") EXCEPT !.k = K1], [Q("setro") EXCEPT !.ro = FALSE], Q("nodeinfo"), [Q("put") EXCEPT !.k = K1, !.v = "v3"] >>
 >>
 SweepScripts == {11, 12, 18, 19}
 Edgy == sid \in {18, 19}
@@ -240,7 +259,7 @@ SB == IF Edgy THEN EdgeBoundSeq ELSE BoundSeq
 SA == IF Edgy THEN EdgeAffixSeq ELSE AffixSeq
 SL == IF Edgy THEN EdgeLimitSeq ELSE LimitSeq
 
-GScript == /\ Flavour = "script" /\ phase = "run" /\ Len(h) < Len(Scripts[sid])
+GScript == /\ IsScript /\ phase = "run" /\ Len(h) < Len(Scripts[sid])
            /\ Step(Scripts[sid][Len(h) + 1]) /\ UNCHANGED <<phase, sid>>
 
 \* all scan-option combinations in ONE step (a scan changes nothing): 7 x 7 x 5 x 5 x 5 requests (edge sweeps: 8 x 8 x 8 x 8 x 2)
@@ -258,8 +277,8 @@ SweepRec(i) == LET so == SweepOpt(i)
                IN [rq |-> [Q(IF inTx THEN "txscan" ELSE "scan") EXCEPT !.h = x, !.so = so],
                    rs |-> [ok |-> TRUE, err |-> "", found |-> FALSE, val |-> "", items |-> ScanItems(m, so), h |-> 0,
                            info |-> <<>>, n |-> 0],
-                   chk |-> FALSE, sid |-> sid, st |-> <<>>, lk |-> IF inTx THEN "w" ELSE "free", ro |-> readOnly]
-GSweep == /\ Flavour = "script" /\ phase = "run" /\ sid \in SweepScripts /\ Len(h) = Len(Scripts[sid])
+                   chk |-> FALSE, sid |-> sid, repl |-> repl, st |-> <<>>, lk |-> IF inTx THEN "w" ELSE "free", ro |-> readOnly]
+GSweep == /\ IsScript /\ phase = "run" /\ sid \in SweepScripts /\ Len(h) = Len(Scripts[sid])
           /\ \A i \in 1..NSweep : ScanOK(IF OpenHandles # {} THEN View(CHOOSE y \in OpenHandles : TRUE) ELSE db,
                                           SweepOpt(i), ScanKeys(IF OpenHandles # {} THEN View(CHOOSE y \in OpenHandles : TRUE) ELSE db, SweepOpt(i)))
           /\ h' = h \o [i \in 1..NSweep |-> SweepRec(i)]
@@ -268,7 +287,7 @@ GSweep == /\ Flavour = "script" /\ phase = "run" /\ sid \in SweepScripts /\ Len(
 -----------------------------------------------------------------------------
 (* the end of every behaviour: roll back what is still open, then the probe *)
 
-RunOver == IF Flavour = "script" THEN Len(h) >= Len(Scripts[sid]) /\ sid \notin SweepScripts ELSE Len(h) >= GenLen
+RunOver == IF IsScript THEN Len(h) >= Len(Scripts[sid]) /\ sid \notin SweepScripts ELSE Len(h) >= GenLen
 GToClose == phase = "run" /\ RunOver /\ phase' = "close" /\ UNCHANGED <<vars, h, sid>>
 GClose == /\ phase = "close"
           /\ IF OpenHandles # {}
